@@ -54,6 +54,7 @@ seq_t dtw_warping_paths{{ suffix }}{{ suffix2 }}(seq_t *wps,
     idx_t ec = settings->psi_2b;  // relaxed cells of the virtual first row are not above max_dist
     idx_t ec_next;
     bool smaller_found;
+    idx_t final_wpsi = 0;
     {%- endif %}
 
     DTWWps p = dtw_wps_parts(l1, l2, settings);
@@ -141,6 +142,8 @@ seq_t dtw_warping_paths{{ suffix }}{{ suffix2 }}(seq_t *wps,
         }
         smaller_found = false;
         ec_next = ri;
+        // Index of the last cell of this row (also valid if the loop below is left early)
+        final_wpsi = ri_width + wpsi + (max_ci - ci) - 1;
         {%- endif %}
         // A region assumes wps has the same column indices in the previous row
         for (; ci<max_ci; ci++) {
@@ -211,6 +214,8 @@ seq_t dtw_warping_paths{{ suffix }}{{ suffix2 }}(seq_t *wps,
         }
         smaller_found = false;
         ec_next = ri;
+        // Index of the last cell of this row (also valid if the loop below is left early)
+        final_wpsi = ri_width + wpsi + (max_ci - ci) - 1;
         {%- endif %}
         for (; ci<max_ci; ci++) {
             ci_idx = ci * ndim;
@@ -281,6 +286,8 @@ seq_t dtw_warping_paths{{ suffix }}{{ suffix2 }}(seq_t *wps,
         }
         smaller_found = false;
         ec_next = ri;
+        // Index of the last cell of this row (also valid if the loop below is left early)
+        final_wpsi = ri_width + wpsi + (max_ci - ci) - 1;
         {%- endif %}
         for (; ci<max_ci; ci++) {
             ci_idx = ci * ndim;
@@ -361,6 +368,8 @@ seq_t dtw_warping_paths{{ suffix }}{{ suffix2 }}(seq_t *wps,
         }
         smaller_found = false;
         ec_next = ri;
+        // Index of the last cell of this row (also valid if the loop below is left early)
+        final_wpsi = ri_width + wpsi + (l2 - ci) - 1;
         {%- endif %}
         for (; ci<l2; ci++) {
             ci_idx = ci * ndim;
@@ -413,7 +422,9 @@ seq_t dtw_warping_paths{{ suffix }}{{ suffix2 }}(seq_t *wps,
 //    dtw_print_wps(wps, l1, l2, settings);
 
     seq_t rvalue = 0;
+    {%- if "affinity" in suffix %}
     idx_t final_wpsi = ri_widthp + wpsi - 1;
+    {%- endif %}
     // Deal with Psi-relaxation
     if (return_dtw && settings->psi_1e == 0 && settings->psi_2e == 0) {
         rvalue = wps[final_wpsi];
